@@ -1603,6 +1603,41 @@ func (c *Ctx) floatFieldSources(v ssa.Value, depth int) []string {
 			walk(x.X, d-1)
 		case *ssa.ChangeType:
 			walk(x.X, d-1)
+		case *ssa.Field:
+			walk(x.X, d)
+		case *ssa.Index:
+			walk(x.X, d)
+		case *ssa.IndexAddr:
+			walk(x.X, d)
+		case *ssa.FieldAddr:
+			walk(x.X, d)
+		case *ssa.Slice:
+			walk(x.X, d)
+		case *ssa.Alloc:
+			// a local table (array or struct literal): everything stored into its elements and their fields
+			var stores func(addr ssa.Value, dd int)
+			stores = func(addr ssa.Value, dd int) {
+				if dd == 0 || addr.Referrers() == nil {
+					return
+				}
+				for _, r := range *addr.Referrers() {
+					switch y := r.(type) {
+					case *ssa.Store:
+						if y.Addr == addr {
+							walk(y.Val, d-1)
+						}
+					case *ssa.IndexAddr:
+						if y.X == addr {
+							stores(y, dd-1)
+						}
+					case *ssa.FieldAddr:
+						if y.X == addr {
+							stores(y, dd-1)
+						}
+					}
+				}
+			}
+			stores(x, 3)
 		}
 	}
 	walk(v, depth)
